@@ -10,7 +10,7 @@ HERE = os.path.dirname(os.path.dirname(os.path.abspath(__file__)))
 STRENGTHENED = {
     'C01-1': 'dot / empty segments at the END of the path among the generated spellings',
     'C01-3': 'not visible without a kill: caught by the C03 and C14 checks (kill between status_code update and check-in; release() semantics)',
-    'C01-4': 'caught by C13 (scripted schedules) and by the C01 crawls with two workers whose last two items - a leaf and a page with a link to add - are answered after the same delay (fixed sites finish-together-*)',
+    'C01-4': 'the C01 check also runs the engine pipeline (producer, workers, a growing item source) on the scripted event loop of C13: a schedule on which the crawl returns before every created item was processed is the replay (real crawls hit the window only by timing luck)',
     'C02-4': 'pages that keep answering 503/429 with Retry-After + "requests as an item <= --tries" in the crawl-log predicate (also caught by C18)',
     'C03-3': 'one listed site runs with --database-uri sqlite:///...',
     'C03-4': 'one listed site runs with --convert-links; kill points extend into the conversion stage',
